@@ -39,7 +39,7 @@ def handle : List Sx → Sx
     -- spec suite: the Lean specification `sel` alone (compared with the Python reference)
     match sh.nats?, parseEntries ents with
     | some shape, some es =>
-      match sel shape es with
+      match sel shape (expand es) with
       | some sp => .list [Sx.ofNats sp.shape, .list ((indices sp.shape).map fun o =>
           if sp.flag o then Sx.atom "m" else Sx.ofNat (ravel shape (sp.src o)))]
       | none => .atom "IndexError"
